@@ -160,10 +160,14 @@ def run_case(case: dict):
                     proto = GeminiServerProtocol(h, None, handler)
                     tr.attach(proto)
                     data = line.encode() + b"\r\n" + content + b"EXTRA-BYTES-BEYOND-SIZE"
-                    cut = len(line) + 2 + len(content) // 2
-                    tr.feed(data[:cut])
-                    await vloop.settle(3)
-                    tr.feed(data[cut:])
+                    mode = (len(content) + len(line)) % 3
+                    if mode == 0:
+                        tr.feed(data)  # request line, content and surplus bytes in one read
+                    else:
+                        cut = len(line) + 2 + (len(content) // 2 if mode == 1 else len(content))
+                        tr.feed(data[:cut])
+                        await vloop.settle(3)
+                        tr.feed(data[cut:])
                     await vloop.settle(8)
                     await asyncio.sleep(100)
                     return tr
